@@ -36,7 +36,11 @@ RULE = (
 ASSUMPTIONS = ["CPython threads; the counter attribute is the only shared mutable state touched by name generation"]
 
 A = VTag("a", True, 1)
-PREFIXES = ("leaf", "materialization", "x", "leaf_0001", "p" * 60, "dataset_query_" + "q" * 56)
+PREFIXES = ("leaf", "materialization", "x", "leaf_0001", "p" * 60, "dataset_query_" + "q" * 56, "stage__", "__", "", "x_")
+# starting values of the public per-engine counter field: digit-width boundaries of any fixed-width rendering
+PRESETS = (0, 0, 0, 1, 9, 10, 99, 100, 999, 1000, 9998, 9999, 10000, 10001, 99999, 100000)
+# every name handed out in this process, over all cases: the property quantifies over any history of requests
+_ALL_NAMES = {}
 
 
 def budget(tier):
@@ -45,8 +49,8 @@ def budget(tier):
 
 @st.composite
 def st_case(draw, tier):
-    nengines = draw(st.integers(1, 3))
-    engines = tuple(draw(st.sampled_from(["it", "sql"])) for _ in range(nengines))
+    nengines = draw(st.integers(1, 5))
+    engines = tuple((draw(st.sampled_from(["it", "sql"])), draw(st.sampled_from(PRESETS))) for _ in range(nengines))
     nthreads = draw(st.integers(2, 4 if tier == "quick" else 8))
     threads = []
     for _ in range(nthreads):
@@ -78,6 +82,7 @@ class Sched:
         self.state = {}
         self.turn = None
         self.local = threading.local()
+        self.stalls = 0
         self.observed = []  # (tid, engine id, counter value read)
         self.errors = []
 
@@ -89,7 +94,7 @@ class Sched:
             self.state[tid] = "blocked"
             self.cv.notify_all()
             while self.turn != tid:
-                if not self.cv.wait(timeout=20):
+                if not self.cv.wait(timeout=120):
                     raise HarnessError("scheduler: thread starved")
             self.turn = None
 
@@ -116,11 +121,26 @@ class Sched:
             t.start()
         while True:
             with self.cv:
+                waited = 0.0
                 while any(s == "running" for s in self.state.values()):
-                    if not self.cv.wait(timeout=20):
+                    if self.cv.wait(timeout=0.5):
+                        continue
+                    waited += 0.5
+                    # a picked thread that reaches neither a yield point nor its end is waiting for a lock inside the
+                    # library (held by a thread parked at a yield point): set it aside and let the others proceed
+                    if any(s == "blocked" for s in self.state.values()):
+                        for t, s in self.state.items():
+                            if s == "running":
+                                self.state[t] = "stalled"
+                                self.stalls += 1
+                    elif waited > 60:
                         raise HarnessError("scheduler: a thread neither blocked nor finished")
                 runnable = sorted(t for t, s in self.state.items() if s == "blocked")
                 if not runnable:
+                    if any(s == "stalled" for s in self.state.values()):
+                        if not self.cv.wait(timeout=60):
+                            raise HarnessError("scheduler: all remaining threads are stalled")
+                        continue
                     break
                 pick = runnable[self.schedule[self.pos % len(self.schedule)] % len(runnable)]
                 self.pos += 1
@@ -133,12 +153,17 @@ class Sched:
             raise self.errors[0]
 
 
-def make_engine(kind, sched, idx):
+def _spec(e):
+    return (e, 0) if isinstance(e, str) else tuple(e)
+
+
+def make_engine(spec, sched, idx):
     from lsst.daf.relation import iteration, sql
 
+    kind, preset = _spec(spec)
     base = iteration.Engine if kind == "it" else sql.Engine
     if sched is None:
-        return base(name=f"E{idx}")
+        return base(name=f"E{idx}", relation_name_counter=preset) if preset else base(name=f"E{idx}")
 
     class Scheduled(base):
         pass
@@ -154,7 +179,7 @@ def make_engine(kind, sched, idx):
         self.__dict__["_vf_counter"] = v
 
     Scheduled.relation_name_counter = property(getter, setter)
-    return Scheduled(name=f"E{idx}")
+    return Scheduled(name=f"E{idx}", relation_name_counter=preset) if preset else Scheduled(name=f"E{idx}")
 
 
 def request(engine, kind, what, prefix):
@@ -203,6 +228,16 @@ def check_names(names, driver, ctx):
                 "duplicate-name", f"[{driver}] name {name!r} handed out twice (threads {seen[name]} and {tid}); {ctx}", driver=driver, nondeterministic=nd
             )
         seen[name] = tid
+    for tid, prefix, name in names:
+        if name in _ALL_NAMES:
+            raise Violation(
+                "duplicate-name-across-cases",
+                f"[{driver}] name {name!r} was already handed out earlier in this process ({_ALL_NAMES[name]}); now again in: {ctx}",
+                driver=driver,
+                nondeterministic=True,
+            )
+    for tid, prefix, name in names:
+        _ALL_NAMES[name] = ctx[:300]
 
 
 def run_case(case, stats):
@@ -217,7 +252,7 @@ def run_case(case, stats):
     def worker(tid, reqs, engs):
         def fn():
             for ei, what, prefix in reqs:
-                name = request(engs[ei], engines_spec[ei], what, prefix)
+                name = request(engs[ei], _spec(engines_spec[ei])[0], what, prefix)
                 if name is None:
                     continue
                 with lock:
@@ -239,7 +274,7 @@ def run_case(case, stats):
                 barrier.wait(timeout=20)
                 for _ in range(3):
                     for ei, what, prefix in reqs:
-                        name = request(engines1[ei], engines_spec[ei], what, prefix)
+                        name = request(engines1[ei], _spec(engines_spec[ei])[0], what, prefix)
                         if name is None:
                             continue
                         with lock:
@@ -273,6 +308,8 @@ def run_case(case, stats):
         by.setdefault((ei, v), set()).add(tid)
     same_counter = sum(1 for tids in by.values() if len(tids) >= 2)
     stats.c["requests"] += nreq
+    stats.c["picked_threads_set_aside_waiting_for_a_library_lock"] += sched.stalls
+    stats.c["engines_with_preset_counter"] += sum(1 for e in engines_spec if _spec(e)[1])
     stats.c["counter_values_read_by_2+_threads"] += same_counter
     # two engines handing out the same (prefix, counter) pair
     cross = {}
@@ -288,7 +325,7 @@ def run_case(case, stats):
 
 def describe(case):
     engines_spec, threads, schedule = case
-    return {"engines": list(engines_spec), "threads": [[f"E{e}:{w}:{p}" for e, w, p in reqs] for reqs in threads], "schedule": list(schedule)}
+    return {"engines": [list(_spec(e)) for e in engines_spec], "threads": [[f"E{e}:{w}:{p}" for e, w, p in reqs] for reqs in threads], "schedule": list(schedule)}
 
 
 def attribute(case, v):
